@@ -94,11 +94,14 @@ func FreeItems() []any {
 }
 
 func (Sched) PoolGet(p *vs.Pool) (any, bool) {
-	schedx.Point("pool.Get")
+	inThread := schedx.Current() >= 0 // false: set-up code on the controller goroutine, before the threads run
+	if inThread {
+		schedx.Point("pool.Get")
+	}
 	var idx [maxPuts]int
 	n := liveOf(p, &idx)
 	k := 0
-	if n > 0 {
+	if n > 0 && inThread {
 		k = schedx.Choose("pool.Get answer (0..n-1 pooled item, most recent first; n = New)", n+1)
 	}
 	if k >= n {
@@ -116,10 +119,15 @@ func (Sched) PoolGet(p *vs.Pool) (any, bool) {
 func bump(p *int) { *p++ }
 
 func (Sched) PoolPut(p *vs.Pool, x any) {
-	schedx.Point("pool.Put")
+	inThread := schedx.Current() >= 0
+	if inThread {
+		schedx.Point("pool.Put")
+	}
 	i := add(p, x)
 	atomic.StoreUint32(&words[i], 1) // release
-	schedx.Point("after pool.Put")
+	if inThread {
+		schedx.Point("after pool.Put")
+	}
 }
 
 func (Sched) Lock(m *vs.Mutex)   { schedx.Lock(&m.Held) }
